@@ -21,7 +21,7 @@ use crate::prng::{digest_bytes, mix, Prng};
 
 pub const SIM_ID: u64 = 1;
 const MAX_HANDLES: usize = 48;
-const STEP_TICK_BUDGET: u64 = 1 << 20;
+const STEP_TICK_BUDGET: u64 = 1 << 16;
 
 // ---------------------------------------------------------------------------------------------
 // Plan
